@@ -106,7 +106,8 @@ func idGrid(p *pureAcc) {
 func keyAddrs() [][]byte {
 	base := []byte("provider1___________")
 	other := []byte("prowider2___________")
-	out := [][]byte{base[:1], base[:2], base, append(append([]byte{}, base...), 'x'), other[:3], other, append(append([]byte{}, other...), 0x00)}
+	out := [][]byte{base[:1], base[:2], base, append(append([]byte{}, base...), 'x'), other[:3], other, append(append([]byte{}, other...), 0x00),
+		[]byte("prov-stake-holder-01"), []byte("stake")} // addresses that contain / are the text of the fee denomination
 	return out
 }
 
@@ -192,7 +193,7 @@ func keyGrid(p *pureAcc) {
 // checks that every scan the module performs returns exactly the records of its subject.
 func scanGrid(p *pureAcc) {
 	rig := NewRig(RigConfig{})
-	s := rig.Genesis(defaultParams(), nil, nil)
+	s := rig.Genesis(defaultParams(), []Funding{{C1, 100000}}, nil)
 	w := rig.Restore(s)
 	ctx := w.ctx
 	k := rig.sk
@@ -233,12 +234,13 @@ func scanGrid(p *pureAcc) {
 		prov []byte
 		exp  int64
 	}
+	batchCounters := []uint64{1, 2, 255, 256, 257, 511, 65535, 65536, 1<<32 - 1, 1<<64 - 1}
 	var reqs []rq
 	for ci, c := range ctxs {
-		for _, bc := range []uint64{1, 2, 256, 257} {
+		for _, bc := range batchCounters {
 			for ix := int16(0); ix < 2; ix++ {
 				n := names[(ci+int(ix))%len(names)]
-				pr := provs[(ci+int(bc)+int(ix))%len(provs)]
+				pr := provs[(ci+int(bc%1000)+int(ix))%len(provs)]
 				id := st.GenerateRequestID(c, bc, 5, ix)
 				k.SetCompactRequest(ctx, id, st.NewCompactRequest(c, bc, pr, coins(1), 5, 9))
 				k.AddActiveRequest(ctx, n, pr, 9+int64(ix), id)
@@ -355,7 +357,7 @@ func scanGrid(p *pureAcc) {
 	}
 	// records of (context, batch)
 	for _, c := range ctxs {
-		for _, bc := range []uint64{0, 1, 2, 255, 256, 257, 258} {
+		for _, bc := range append([]uint64{0, 258, 510, 512, 1 << 32}, batchCounters...) {
 			var want []string
 			for _, r := range reqs {
 				if bytes.Equal(r.ctx, c) && r.bc == bc {
@@ -384,6 +386,41 @@ func scanGrid(p *pureAcc) {
 			chk("requests-of-batch", sub, want, g1)
 			chk("pending-requests-of-batch", sub, append([]string{}, want...), g2)
 			chk("responses-of-batch", sub, append([]string{}, want...), g3)
+		}
+	}
+	// cleaning one batch removes exactly its request and response records (batch counters around every byte boundary)
+	for _, c := range ctxs {
+		for _, bc := range batchCounters {
+			cctx, _ := ctx.CacheContext()
+			safely(p, "clean-batch", func() { k.CleanBatch(cctx, st.RequestContext{BatchCounter: bc}, c) })
+			var want, got []string
+			for _, r := range reqs {
+				if bytes.Equal(r.ctx, c) && r.bc == bc {
+					want = append(want, hexs(r.id))
+				}
+				_, hasReq := k.GetCompactRequest(cctx, r.id)
+				_, hasResp := k.GetResponse(cctx, r.id)
+				if !hasReq || !hasResp {
+					got = append(got, hexs(r.id))
+				}
+			}
+			chk("clean-batch-removes", fmt.Sprintf("%X/%d", c[:4], bc), want, got)
+		}
+	}
+	// returning all earnings (zero-height export) pays every provider exactly its own record
+	{
+		cctx, _ := ctx.CacheContext()
+		total := int64(0)
+		for i := range provs {
+			total += int64(100 + i)
+		}
+		if err := rig.bk.SendCoinsFromAccountToModule(cctx, C1, st.RequestAccName, coins(total)); err != nil {
+			panic(err)
+		}
+		safely(p, "refund-earned-fees", func() { _ = k.RefundEarnedFees(cctx) })
+		for i, pr := range provs {
+			got := rig.bk.GetBalance(cctx, pr, denom).Amount.String()
+			chk("refund-earned-fees-pays-the-provider", hexs(pr), []string{fmt.Sprint(100 + i)}, []string{got})
 		}
 	}
 	// pending requests of a binding
